@@ -448,8 +448,9 @@ func option(p pat, h handler, fn bool) mux.Option {
 // ---------------------------------------------------------------- plumbing
 
 type sliceReader struct {
-	toks []xml.Token
-	i    int
+	toks        []xml.Token
+	i           int
+	lastWithEOF bool
 }
 
 func (r *sliceReader) Token() (xml.Token, error) {
@@ -458,6 +459,9 @@ func (r *sliceReader) Token() (xml.Token, error) {
 	}
 	t := r.toks[r.i]
 	r.i++
+	if r.lastWithEOF && r.i == len(r.toks) {
+		return xml.CopyToken(t), io.EOF
+	}
 	return xml.CopyToken(t), nil
 }
 
@@ -559,6 +563,10 @@ type tcase struct {
 	xml      string
 	progs    []prog
 	live     bool // drive from a live xml.Decoder (as the session does) instead of a token slice
+	// the token reader returns its last token together with io.EOF (as
+	// xmlstream.Wrap, stanza.*.Wrap and xmlstream.MultiReader do: a stanza that
+	// was assembled from tokens or unwrapped from a carbon / forwarded message)
+	lastWithEOF bool
 }
 
 func (c tcase) canon() string {
@@ -567,7 +575,7 @@ func (c tcase) canon() string {
 		ps[i] = p.String()
 	}
 	sort.Strings(ps)
-	return fmt.Sprintf("%s|%s|%s|%v|%v", c.stanzaNS, strings.Join(ps, ","), c.xml, c.progs, c.live)
+	return fmt.Sprintf("%s|%s|%s|%v|%v|%v", c.stanzaNS, strings.Join(ps, ","), c.xml, c.progs, c.live, c.lastWithEOF)
 }
 
 func (c tcase) describe() string {
@@ -699,7 +707,7 @@ func runCase(t failer, c tcase, classify func(facts, expect)) {
 		rd = xmlstream.InnerElement(d)
 	} else {
 		start = f.start.Copy()
-		rd = &sliceReader{toks: f.ref[1:]}
+		rd = &sliceReader{toks: f.ref[1:], lastWithEOF: c.lastWithEOF}
 	}
 	var herr error
 	if p := ev.Guard(func() {
@@ -1120,7 +1128,9 @@ func genCase(t *rapid.T) tcase {
 	} else {
 		e = genStanza(t, c.stanzaNS, ik, ityp)
 	}
+	topForStanza := false
 	if ik != kTop && rapid.IntRange(0, 7).Draw(t, "stanzaNSPattern") == 0 {
+		topForStanza = true
 		// a namespace-only top-level pattern naming the stanza namespace itself
 		// matches the stanza element: the statement ranks a namespace-only match
 		// above the bare type wildcard.  (It does not order it against payload
@@ -1139,9 +1149,18 @@ func genCase(t *rapid.T) tcase {
 		fn = append(fn[:pos:pos], append([]bool{rapid.Bool().Draw(t, "stanzaNSPatternFn")}, fn[pos:]...)...)
 		c.cfg, c.fn = cfg, fn
 	}
+	if (ik == kMsg || ik == kPres) && !topForStanza && rapid.IntRange(0, 5).Draw(t, "ownNamePattern") == 0 {
+		// a payload pattern that happens to match the stanza element's own name
+		// (a handler for core children registers the stanza namespace): it is a
+		// payload pattern all the same, an empty stanza is not dispatched to it
+		own := rapid.SampledFrom([]xml.Name{{Space: c.stanzaNS}, {Local: ik.String()}, {Space: c.stanzaNS, Local: ik.String()}}).Draw(t, "ownName")
+		c.cfg = append(c.cfg, pat{k: ik, typ: ityp, name: own})
+		c.fn = append(c.fn, rapid.Bool().Draw(t, "ownNameFn"))
+	}
 	c.xml = e.String()
 	c.progs = genProgs(t, 12)
 	c.live = rapid.Bool().Draw(t, "live")
+	c.lastWithEOF = !c.live && rapid.Bool().Draw(t, "lastWithEOF")
 	return c
 }
 
@@ -1167,6 +1186,15 @@ func classify(c tcase) func(facts, expect) {
 		}
 		if c.live {
 			classes = append(classes, "live-decoder")
+		}
+		if c.lastWithEOF {
+			classes = append(classes, "reader-returns-last-token-with-EOF")
+		}
+		for _, p := range c.cfg {
+			if p.k != kTop && (p.name.Space == c.stanzaNS || p.name.Local == "message" || p.name.Local == "presence") {
+				classes = append(classes, "payload-pattern-matching-the-stanza-name")
+				break
+			}
 		}
 		partial := false
 		modes := map[int]bool{}
